@@ -66,6 +66,7 @@ def layouts(rng, case):
         out.append(('section-per-component', [[comp] for comp in comps]))
         # one section, every component its own file
         out.append(('file-per-component', [[comp for comp in comps]]))
+        out.append(('file-per-component:relative-ids', [[comp for comp in comps]]))
         # random assignment to 2 sections x 1-2 files
         secs = [[[], []], [[], []]]
         for comp in comps:
@@ -85,7 +86,8 @@ def run_layouts(ctx, items):
     jobs, dirs = [], []
     for k, (case, lay) in enumerate(items):
         d = os.path.join(wd, 'lay%d_%d' % (id(items) % 100000, k)); os.makedirs(d)
-        jobs.append({'fn': 'mat_set', 'args': {'config': mapcase.materialise_layout(case, d, lay), 'cwd': d}}); dirs.append(d)
+        rel = isinstance(lay, tuple)
+        jobs.append({'fn': 'mat_set', 'args': {'config': mapcase.materialise_layout(case, d, lay[1] if rel else lay, relative_ids=rel), 'cwd': d}}); dirs.append(d)
     res = ctx.pool.map(jobs, timeout=240)
     for d in dirs:
         shutil.rmtree(d, ignore_errors=True)
@@ -105,7 +107,7 @@ def run(ctx, res):
     for case, rec in zip(cases, whole):
         family.judge(res, rec, known)
         for name, lay in layouts(ctx.rng, case):
-            items.append((case, lay)); meta.append((case, rec['impl'], name, lay))
+            items.append((case, ('rel', lay) if name.endswith('relative-ids') else lay)); meta.append((case, rec['impl'], name, lay))
     outs = run_layouts(ctx, items)
     for (case, w, name, lay), o in zip(meta, outs):
         res.evaluations += 1
